@@ -1119,6 +1119,41 @@ example : ((resetFlood c3 State.empty 1 9999 5).1.flood.map (·.free), (resetFlo
     (resetFlood c3 State.empty 1 10001 5).1.flood.map (·.free), (resetFlood c3 State.empty 1 2147483647 5).1.flood.map (·.free))
     = ([9999], [10000], [10000], [10000]) := by decide
 
+/-! ### where the global-budget decision is read
+
+  `getOrCreate c s m k now` takes NO pre-read argument: `skipFlood c s` looks at `s.lastCreated`, the state in which the request is
+  APPLIED (the real code reads db.lastMappingIDToInsert inside the eng.Do callback, where requests are serialised). A history is
+  the order of application, so `flood_bound` is about exactly that order. The seeded variant C19-r5-1 decides from a snapshot taken
+  when the request ENTERED GetOrCreateMapping: -/
+
+/-- get-or-create whose global-budget decision uses `snap`, a value of lastCreated read earlier (at function entry) -/
+def getOrCreateStale (c : Cfg) (s : State) (snap : Int) (m k now : Nat) : State × MapOut :=
+  let r := getOrCreate c { s with lastCreated := snap } m k now
+  ({ r.1 with lastCreated := match r.2 with
+                             | .created id => id
+                             | _ => s.lastCreated }, r.2)
+
+/-- reading at apply time is the special case snap = s.lastCreated -/
+theorem getOrCreateStale_fresh (c : Cfg) (s : State) (m k now : Nat) :
+    (getOrCreateStale c s s.lastCreated m k now).2 = (getOrCreate c s m k now).2 := by
+  rfl
+
+/-- budget 1, global budget 2, bonus 1 per hour, the clock never moves. k1, k2 are inside the global budget; the late request
+    enters now (snapshot 2); k3 uses up the global budget, k4 spends the metric's budget, k5 is refused -/
+def cG : Cfg := { maxBudget := 1, step := 3600, bonus := 1, globalBudget := 2 }
+def sLate : State := run cG State.empty [.getOrCreate 1 1 7200, .getOrCreate 1 2 7200, .getOrCreate 1 3 7200, .getOrCreate 1 4 7200]
+example : sLate.lastCreated = 4 ∧ sLate.flood = [{ metric := 1, last := 7200, free := 0 }] := by decide
+example : Exhausted cG sLate ∧ (getOrCreate cG sLate 1 5 7200).2 = .flood := ⟨⟨by decide, by decide⟩, by decide⟩
+-- the code (decision at apply time): the late request is refused like k5, the budget stays spent
+example : getOrCreate cG sLate 1 9 7200 = (sLate, .flood) := by decide
+-- the seeded variant (snapshot 2 taken at entry, still inside the global budget): the late request is created, the skip path also
+-- rewrites the metric's budget to maxBudget, so the next request succeeds as well — 3 creations against a budget of 1, no step elapsed
+example : (getOrCreateStale cG sLate 2 1 9 7200).2 = .created 5 ∧
+    (getOrCreateStale cG sLate 2 1 9 7200).1.flood = [{ metric := 1, last := 7200, free := 1 }] ∧
+    (getOrCreate cG (getOrCreateStale cG sLate 2 1 9 7200).1 1 10 7200).2 = .created 6 := by decide
+-- … which `flood_bound` forbids for the real model: from sLate at most max(1, 0) + 1·0 = 1 … in fact 0 further creations
+example : createdFor cG 1 sLate [.op (.getOrCreate 1 9 7200), .op (.getOrCreate 1 10 7200)] = 0 := by decide
+
 /-! ### non-vacuity and the observed quirks -/
 
 
